@@ -134,9 +134,17 @@ def build(scratch, targets=("world",), verbose=False):
     for app in ("nsq_to_file", "to_nsq", "nsq_to_nsq", "nsq_to_http"):
         for f in sorted(glob.glob(os.path.join(VERIF, "inpkg", app, "*.go"))):
             overlay[os.path.join(REPO, "apps", app, os.path.basename(f))] = f
-        # shared harness file for all apps
-        for f in sorted(glob.glob(os.path.join(VERIF, "inpkg", "common", "*.go"))):
-            overlay[os.path.join(REPO, "apps", app, os.path.basename(f))] = f
+        # the shared harness (run loop, PRNG, replay files, raw clients) as package main
+        if glob.glob(os.path.join(VERIF, "inpkg", app, "*.go")):
+            shared = os.path.join(scratch, "shared")
+            os.makedirs(shared, exist_ok=True)
+            for name in ("core_test.go", "client_test.go", "race_on_test.go", "race_off_test.go"):
+                src = open(os.path.join(VERIF, "worlds", name)).read()
+                if src.count("package zzverif") != 1:
+                    raise BuildError("unexpected package clause in worlds/" + name)
+                dst = os.path.join(shared, "zzv_" + name)
+                open(dst, "w").write(src.replace("package zzverif", "package main"))
+                overlay[os.path.join(REPO, "apps", app, "zzv_" + name)] = dst
     ov = os.path.join(scratch, "overlay.json")
     json.dump({"Replace": overlay}, open(ov, "w"), indent=1)
     bins = {}
